@@ -195,3 +195,21 @@ func Check(c *Case) (o core.Outcome) {
 
 func TestRapid(t *testing.T)  { core.RunRapid(t, ID, Gen, Check) }
 func TestReplay(t *testing.T) { core.RunReplay(t, ID, &Case{}, Check) }
+
+// TestBig: the free generator's cases at sizes where a dimension or the sample count crosses a
+// power of two (255..257, 511..513, 1023..1025 with a short other side; both sides 250..300).
+// The exact synthesis gains are computed for these sizes too (a few hundred milliseconds each).
+func TestBig(t *testing.T) {
+	g := rapid.Custom(func(t *rapid.T) *Case {
+		c := Gen(t)
+		d := gen.BigGeometry().Draw(t, "big")
+		for k := range d {
+			if d[k] > 1100 {
+				d[k] = 1023 + d[k]%3
+			}
+		}
+		c.Img.Resize(d[0], d[1])
+		return c
+	})
+	core.RunSharded(t, ID, 24, 400, g, Check)
+}
